@@ -37,12 +37,12 @@ def lexgen(run: Run, maxlex: int) -> list[dict]:
     return LG.generate(run, maxlex)
 
 
-def indent(run: Run) -> list[dict]:
+def indent(run: Run, light: bool = False) -> list[dict]:
     """Line layouts (leading whitespace x line shape) with the token stream or error the line-structure model predicts
-    (Indent.tla)."""
+    (Indent.tla); light: text and outcome only."""
     from . import indent as IG
 
-    return IG.generate(run)
+    return IG.generate(run, light=light)
 
 
 def fmode(run: Run) -> list[dict]:
